@@ -194,6 +194,7 @@ def store_subscript(self, t, v, st, node):
     idx = self.eval(t.slice, st)
     if isinstance(base, Num):
         nv = tonum(v)
+        self.events.append(('store', node, base.shape, taint_of(v) | self.pc, taint_of(idx), self.cur.qname if self.cur else ''))
         if nv is None:
             if not isinstance(v, TopV):
                 self.unsupported('store of %s into an array' % type(v).__name__, node)
@@ -270,19 +271,30 @@ def s_If(self, s, st, frame):
     save = self.pc
     self.pc = self.pc | taint_of(c)
     abrupt = False
+    raised = False
     try:
         frame.last_end = None
         a = self.exec_block(s.body, st.fork(), frame)
         if a is None and frame.last_end in ('break', 'continue', 'return'):
             abrupt = True
+        if a is None and frame.last_end == 'raise':
+            raised = True
         frame.last_end = None
         b = self.exec_block(s.orelse, st.fork(), frame)
         if b is None and frame.last_end in ('break', 'continue', 'return'):
             abrupt = True
+        if b is None and frame.last_end == 'raise':
+            raised = True
     finally:
         # an arm that leaves the block (break/continue/return) makes everything that follows in the enclosing
-        # loop / function control dependent on the condition; a raise does not (exception-insensitive)
-        self.pc = (save | taint_of(c)) if abrupt else save
+        # loop / function control dependent on the condition; a raise does not (exception-insensitive) -- except
+        # for scale-variant decisions: whether the estimator raises at all must not depend on the data scale
+        if abrupt:
+            self.pc = save | taint_of(c)
+        elif raised:
+            self.pc = save | frozenset(l for l in taint_of(c) if isinstance(l, str) and l.startswith('V:'))
+        else:
+            self.pc = save
     return join_st(a, b)
 
 
